@@ -27,7 +27,17 @@ MSGS = {'plain': 'division by zero', 'markup': 'bad ' + MARKUP + ' value', 'temp
 EXCS = ['ZeroDivisionError', 'ValueError', 'KeyError', 'ImportError', 'ModuleNotFoundError', 'AttributeError', 'NameError',
         'TypeError', 'RuntimeError', 'OSError', 'UnicodeDecodeError', 'RecursionError', 'CustomError']
 FILES = ['/app/main.py', '/app/pkg/<b id=simx>.py', '/app/ünï.py', '/app/a&b.py', '/app/{tmpl}.py', '/app/' + 'd' * 300 + '.py',
-         '/app/with space.py', "/app/quote'\".py"]
+         '/app/with space.py', "/app/quote'\".py", '{stdlib}/os.py', '{stdlib}/json/decoder.py', '{werkzeug}/wrappers/base_response.py',
+         '{clastic}/application.py', '{clastic}/_clastic_assets/common.css']
+
+
+def resolve_file(f):
+    import ast
+    import os
+    import werkzeug
+    import clastic
+    return (f.replace('{stdlib}', os.path.dirname(ast.__file__)).replace('{werkzeug}', os.path.dirname(werkzeug.__file__))
+            .replace('{clastic}', os.path.dirname(clastic.__file__)))
 
 
 class CustomError(Exception):
@@ -141,14 +151,15 @@ class World(object):
             if noise and child.get('interleave') and i % child['interleave'] == 0:
                 stream.append(noise.pop(0) + '\n')
         stream = [n + '\n' for n in noise[:2]] + stream + [n + '\n' for n in noise[2:]]
-        if child.get('mon_files') is not None:
+        mon_files = [resolve_file(f) for f in child['mon_files']] if child.get('mon_files') is not None else None
+        if mon_files is not None:
             pos = min(len(stream), child.get('mon_pos', len(stream)))
-            stream.insert(pos, '%s%r\n' % (srv._MON_PREFIX, child['mon_files']))
+            stream.insert(pos, '%s%r\n' % (srv._MON_PREFIX, mon_files))
         # what the supervisor scrapes: everything but monitor lines, last _STDERR_BUFF_SIZE lines
         kept = [l for l in stream if not l.startswith(srv._MON_PREFIX)]
         self.expected_text = ''.join(kept[-srv._STDERR_BUFF_SIZE:])
         self.scraped.append(bool(kept))
-        self.expected_files = child.get('mon_files')
+        self.expected_files = mon_files
         self.tb_spec = child.get('stderr')
         self.truncated = bool(child.get('truncate')) or len(kept) > srv._STDERR_BUFF_SIZE
         if len(kept) > srv._STDERR_BUFF_SIZE:
@@ -358,7 +369,8 @@ class C20(Check):
                     'traceback': make_traceback({'exc': 'KeyError', 'msg': 'markup', 'depth': 3}), 'list': ['a', 'b'],
                     'surrogate': 'bad \udcff name'}[d['text']]
             files = {'none': None, 'empty': [], 'long': ['/f/%d.py' % i for i in range(400)], 'markup': list(FILES[1:5]),
-                     'mixed': list(FILES)}[d['files']]
+                     'mixed': [resolve_file(f) for f in FILES]}[d['files']]
+            given_files = list(files) if files is not None else None
             res.fire('direct_text:' + d['text'])
             res.nontrivial = True
             res.sigs.add('direct|%s|%s' % (d['text'], d['files']))
@@ -368,7 +380,7 @@ class C20(Check):
                 res.violate(K + 'create_app-raised:%s@%s' % (type(e).__name__, d['text']), 'create_app(%r, files=%s) raised %r' % (text, d['files'], e))
                 return res
             for method, path in d.get('requests', [['GET', '/']]):
-                self.judge_page(res, app, method, path, text, files,
+                self.judge_page(res, app, method, path, text, given_files,
                                 {'kind': 'traceback', 'exc': 'KeyError', 'msg': 'markup'} if d['text'] == 'traceback' else None, False, 'direct:' + d['text'])
                 if res.violations:
                     return res
